@@ -244,7 +244,7 @@ def main():
     tconf = dict(conf.get("engine", {}))
     tconf.update(conf.get("engine_" + tier, {}))
     tagsets = conf.get("tagsets", ["verif"])
-    evidence_path = os.path.join(VERIF, "evidence", pid + ".json")
+    evidence_path = os.path.join(VERIF, "evidence", pid + (".json" if REPO == "/repo" else ".altrepo.json"))
     os.makedirs(os.path.join(VERIF, "evidence", "replay"), exist_ok=True)
 
     known, _fixed = load_known()
